@@ -280,6 +280,9 @@ func (pi *ProgInfo) Record(d *Digester, mi *MethodInfo, res *interp.CallResult, 
 		switch mi.Kinds[i] {
 		case 'r', 'w':
 			b := a.IO
+			if b == nil {
+				continue // NULL was passed (argument check)
+			}
 			if maskRI && mi.Kinds[i] == 'r' {
 				d.Int(mi.lblRI[i], ^uint64(0))
 			} else {
@@ -303,6 +306,11 @@ func (pi *ProgInfo) Record(d *Digester, mi *MethodInfo, res *interp.CallResult, 
 		}
 	}
 	pi.DumpFields(d, obj)
+	dis := uint64(0)
+	if obj.Disabled {
+		dis = 1
+	}
+	d.Int("#disabled", dis)
 }
 
 // PartialRead reports whether a call that just suspended is parked inside a
@@ -326,4 +334,137 @@ func PartialRead(p *interp.Prog, obj *interp.Object, args []interp.Value) bool {
 		}
 	}
 	return false
+}
+
+// ---------------------------------------------------------------- the argument check of public methods
+//
+// Generated public methods re-validate their arguments at run time
+// (internal/cgen/func.go writeFuncImplArgChecks): after the receiver / magic
+// checks, an argument outside its declared refinement or a NULL io_buffer makes
+// the call return "#base: bad argument" (status results) or the zero value
+// (anything else) without running the body; impure methods also disable the
+// receiver. The reference interpreter is never given such arguments, so this
+// envelope is modelled here.
+
+// BadArg describes one out-of-range argument value of a tuple.
+type BadArg struct {
+	Arg   int
+	Type  string // e.g. "i32[0..=K]"
+	Bound string // "lower", "upper", "null"
+}
+
+func refinementShape(ty *interp.Type) string {
+	base := "u"
+	if ty.Signed {
+		base = "i"
+	}
+	base += strconv.Itoa(int(ty.Bits))
+	lo, hi := baseRangeOf(ty)
+	l, h := "", ""
+	switch {
+	case ty.Min.Cmp(lo) == 0:
+	case ty.Min.Sign() == 0:
+		l = "0"
+	case ty.Min.Sign() < 0:
+		l = "-L"
+	default:
+		l = "L"
+	}
+	if ty.Max.Cmp(hi) != 0 {
+		h = "K"
+	}
+	return base + "[" + l + "..=" + h + "]"
+}
+
+func baseRangeOf(ty *interp.Type) (interp.Int, interp.Int) {
+	one := interp.I64(1)
+	if ty.Signed {
+		return one.Lsh(ty.Bits - 1).Neg(), one.Lsh(ty.Bits - 1).Sub(one)
+	}
+	return interp.Int{}, one.Lsh(ty.Bits).Sub(one)
+}
+
+// BadTuples derives, from an in-range tuple, the tuples in which exactly one
+// argument is outside its declared domain: lo-1, hi+1, the type's minimum and
+// maximum, -1 for refined integers; NULL for I/O arguments.
+func BadTuples(fn *interp.Func, base []interp.ArgSpec) (tuples [][]interp.ArgSpec, what []BadArg) {
+	add := func(i int, spec interp.ArgSpec, b BadArg) {
+		t := append([]interp.ArgSpec{}, base...)
+		t[i] = spec
+		tuples = append(tuples, t)
+		what = append(what, b)
+	}
+	for i, a := range fn.Args {
+		ty := a.Typ
+		switch ty.K {
+		case interp.TIOReader, interp.TIOWriter:
+			add(i, interp.ArgSpec{Kind: "null"}, BadArg{i, "io", "null"})
+		case interp.TInt:
+			lo, hi := baseRangeOf(ty)
+			shape := refinementShape(ty)
+			seen := map[string]bool{}
+			try := func(v interp.Int, bound string) {
+				if v.Cmp(lo) < 0 || v.Cmp(hi) > 0 || (v.Cmp(ty.Min) >= 0 && v.Cmp(ty.Max) <= 0) || seen[v.String()] {
+					return
+				}
+				seen[v.String()] = true
+				add(i, interp.ArgSpec{Kind: "int", Int: v.String()}, BadArg{i, shape, bound})
+			}
+			try(ty.Min.Sub(interp.I64(1)), "lower")
+			try(interp.I64(-1), "lower")
+			try(lo, "lower")
+			try(ty.Max.Add(interp.I64(1)), "upper")
+			try(hi, "upper")
+		}
+	}
+	return tuples, what
+}
+
+// MakeArgs materialises a tuple; "null" for an I/O parameter is a nil buffer.
+func MakeArgs(p *interp.Prog, fn *interp.Func, tup []interp.ArgSpec) []interp.Value {
+	args := make([]interp.Value, len(tup))
+	for i, a := range tup {
+		if a.Kind == "null" && i < len(fn.Args) && (fn.Args[i].Typ.K == interp.TIOReader || fn.Args[i].Typ.K == interp.TIOWriter) {
+			args[i] = interp.Value{K: interp.VIO}
+			continue
+		}
+		args[i] = p.MakeArg(a)
+	}
+	return args
+}
+
+func argOutOfDomain(ty *interp.Type, v interp.Value) bool {
+	switch ty.K {
+	case interp.TIOReader, interp.TIOWriter:
+		return v.IO == nil
+	case interp.TInt:
+		return v.I.Cmp(ty.Min) < 0 || v.I.Cmp(ty.Max) > 0
+	}
+	return false
+}
+
+// CallEnveloped is Machine.CallPublicValues preceded by the argument check of
+// generated public methods.
+func CallEnveloped(m *interp.Machine, p *interp.Prog, obj *interp.Object, fn *interp.Func, spec interp.CallSpec, args []interp.Value) interp.CallResult {
+	bad := false
+	for i, a := range fn.Args {
+		if i < len(args) && argOutOfDomain(a.Typ, args[i]) {
+			bad = true
+		}
+	}
+	if !bad || (fn.Effect.Impure() && obj.Disabled) {
+		// (A disabled receiver refuses impure calls before it looks at the arguments.)
+		return m.CallPublicValues(obj, fn, spec, args)
+	}
+	var res interp.CallResult
+	switch {
+	case fn.Effect.Coroutine() || (fn.Out != nil && fn.Out.K == interp.TStatus):
+		res.Ret = interp.StatusVal("#base: bad argument")
+	case fn.Out != nil:
+		res.Ret = p.ZeroValue(fn.Out)
+	}
+	if fn.Effect.Impure() {
+		obj.Disabled = true
+	}
+	return res
 }
